@@ -222,6 +222,7 @@ func runC03(c *Check) {
 		}
 	}
 	ruleForeignKeyNilChecked(c, p, depth)
+	rulePooledMemoryNotReturned(c, "C03-R7", []*Prog{p})
 	for in, fn := range allSinks {
 		if !covered[in] {
 			c.Bad("C03-R5", "unaccounted sink in "+fnShort(fn), fnName(fn), p.InstrPos(in), "a header/data sink (sync channel send or SetDAIncluded) outside every worker loop's admission path", nil)
